@@ -100,6 +100,7 @@ class CascadeChecker:
         cert_name, _, key_bits, sig_ptrs = parse_data(trust_anchor)
         self.anchor_name = [bytes(c) for c in cert_name]  # Copy the name in case
         self.anchor_key = bytes(key_bits)
+        self._fetching = {}  # Name being validated -> name of the certificate it is waiting for
         if not self._verify_sig(self.anchor_key, sig_ptrs):
             raise ValueError('Trust anchor is not properly self-signed')
         self.logger = logging.getLogger(__name__)
@@ -119,6 +120,16 @@ class CascadeChecker:
                 self.logger.debug('Use cached public key.')
             else:
                 self.logger.debug('Cascade fetching public key ...')
+                # A chain of key locators that leads back to a certificate which is itself waiting for this chain
+                # never reaches the trust anchor: refuse it instead of fetching round and round
+                waiting, wanted = Name.to_bytes(name), Name.to_bytes(cert_name)
+                cur = wanted
+                while cur is not None and cur != waiting:
+                    cur = self._fetching.get(cur)
+                if cur is not None:
+                    self.logger.debug('Certificate loop.')
+                    return False
+                self._fetching[waiting] = wanted
                 # Try to fetch
                 try:
                     _, _, key_bits = await self.app.express_interest(
@@ -127,6 +138,8 @@ class CascadeChecker:
                 except (ValidationFailure, InterestTimeout, InterestNack):
                     self.logger.debug('Public key not valid.')
                     return False
+                finally:
+                    self._fetching.pop(waiting, None)
                 self.logger.debug('Public key fetched.')
                 if key_bits:
                     self.storage.save(cert_name, key_bits)
